@@ -52,6 +52,35 @@ func check(r rec) []engine.Violation {
 		defer func() { p = recover() }()
 		_, err = parse.Parse("in.yang", r.Text, nil)
 	}()
+	// the other ways into the parser give the same verdict and the same error text (statement and
+	// location included): a tree allocated first and parsed later (after an earlier parse of another
+	// text on the same tree), and the parse with an extension cardinality function
+	if p == nil {
+		for vi, via := range []func() error{
+			func() error {
+				t := parse.New("in.yang", nil)
+				t.Parse("module first { namespace u; prefix p;\n\n leaf a { type string; } }\n")
+				_, e := t.Parse(r.Text)
+				return e
+			},
+			func() error {
+				_, e := parse.Parse("in.yang", r.Text, func(parse.NodeType) map[parse.NodeType]parse.Cardinality {
+					return map[parse.NodeType]parse.Cardinality{parse.NodeConfigdHelp: {'0', 'n'}}
+				})
+				return e
+			},
+		} {
+			var e2 error
+			var p2 any
+			func() {
+				defer func() { p2 = recover() }()
+				e2 = via()
+			}()
+			if p2 != nil || fmt.Sprint(e2) != fmt.Sprint(err) {
+				return mk(fmt.Sprintf("entry-points-disagree:%d:%s", vi, strings.SplitN(r.Class, ":", 2)[0]), fmt.Sprintf("parse.Parse: %v ; entry point %d (0 = New + Parse after an earlier Parse, 1 = Parse with extension cardinalities): error %v panic %v", err, vi, e2, p2))
+			}
+		}
+	}
 	switch {
 	case p != nil:
 		return mk("panic:"+r.Class, fmt.Sprint(p))
